@@ -68,6 +68,7 @@ package main
 //@   ensures[C01:agent-calls-are-handled-and-never-enqueued] old(hget(r.Header, "X-Inverting-Proxy-Backend-ID")) != "" ==> agentCalls == 1 && enq == 0
 //@   ensures[C03:a-received-response-is-relayed-once] got != nil ==> commits == 1 && copies == 1
 //@   loop 1
+//@     at for name := range r.Header
 //@     assigns mapof(r.Header)
 //@     invariant[C02:filter-dom] forall_str(k, in(k, r.Header) <==> (old(in(k, r.Header)) && !(visited[k] && hop(k))))
 //@     invariant[C02:filter-vals] forall_str(k, in(k, r.Header) ==> r.Header[k] == old(r.Header[k]))
@@ -101,18 +102,21 @@ package main
 //@     |   && (inloop == 0 ==> arg1 == "transfer-encoding" && arg2 == "chunked")
 //@     |   && (inloop == 4 ==> arg1 == "Trailer:" + name && !hop(name) && in(name, resp.Trailer) && 0 <= idx && idx < len(resp.Trailer[name]) && arg2 == resp.Trailer[name][idx])
 //@   loop 2
+//@     at for name, vals := range resp.Header
 //@     assigns mapof(asHeader(rwHeader[w]))
 //@     invariant[C03:relay-h-state] resp == got && resp != nil && rwHeader[w] != nil && resp.Header != asHeader(rwHeader[w]) && resp.Trailer != asHeader(rwHeader[w])
 //@     invariant[C03:relay-h-dom] forall_str(k, in(k, asHeader(rwHeader[w])) <==> (pre(in(k, asHeader(rwHeader[w]))) || (visited[k] && !hop(k))))
 //@     invariant[C03:relay-h-vals] forall_str(k, visited[k] && !hop(k) ==> asHeader(rwHeader[w])[k] == resp.Header[k])
 //@     invariant[C03:relay-h-visited] forall_str(k, visited[k] ==> in(k, resp.Header))
 //@   loop 3
+//@     at for name, vals := range resp.Trailer
 //@     assigns mapof(asHeader(rwHeader[w]))
 //@     invariant[C03:relay-t-state] resp == got && resp != nil && rwHeader[w] != nil && resp.Header != asHeader(rwHeader[w]) && resp.Trailer != asHeader(rwHeader[w])
 //@     invariant[C03:relay-t-visited] forall_str(t, visited[t] ==> in(t, resp.Trailer))
 //@     invariant[C03:relay-t-counts] forall_str(t, tlen(asHeader(rwHeader[w]), pk(t)) == pre(tlen(asHeader(rwHeader[w]), pk(t))) + ite(visited[t] && !hop(t), tlen(resp.Trailer, t), 0))
 //@     invariant[C03:relay-t-headers-untouched] forall_str(k, !hasPrefix(k, "Trailer:") ==> (in(k, asHeader(rwHeader[w])) <==> pre(in(k, asHeader(rwHeader[w])))) && asHeader(rwHeader[w])[k] == pre(asHeader(rwHeader[w])[k]))
 //@   loop 4
+//@     at for _, v := range vals
 //@     assigns mapof(asHeader(rwHeader[w]))
 //@     invariant[C03:relay-v-state] resp == got && resp != nil && rwHeader[w] != nil && resp.Header != asHeader(rwHeader[w]) && resp.Trailer != asHeader(rwHeader[w]) && !hop(name) && visited[name] && in(name, resp.Trailer) && vals == resp.Trailer[name]
 //@     invariant[C03:relay-v-visited] forall_str(t, visited[t] ==> in(t, resp.Trailer))
